@@ -60,38 +60,32 @@ exactly the authenticated bytes, the tag and the chain markers. -/
 theorem render_parse_plain (data tag : Bytes) (new : Bool) :
     parseLine .last false (data ++ splitTok ++ hexEnc tag ++ (if new then newSuffix else [])) =
       .entry ⟨data, tag, new, isEndData data⟩ := by
-  have htok : splitTok = 32 :: strB "integrity=" := by decide
-  have hlen : splitTok.length = 11 := by decide
-  have hcut : cut .last (data ++ splitTok ++ hexEnc tag ++ (if new then newSuffix else [])) =
-      some (data, hexEnc tag ++ (if new then newSuffix else [])) := by
-    have hl : lastIndexOf splitTok (splitTok ++ (hexEnc tag ++ (if new then newSuffix else []))).tail = none := by
-      rw [htok, List.cons_append, List.tail_cons, ← List.append_assoc]
-      apply lastIndexOf_skip
-      · intro x hx
-        rcases List.mem_append.mp hx with h | h
-        · have hc : ∀ y ∈ strB "integrity=", y ≠ 32 := by decide
-          exact hc x h
-        · exact hexEnc_ne_space tag x h
-      · cases new <;> decide
-    have := lastIndexOf_append_tok splitTok data (hexEnc tag ++ (if new then newSuffix else [])) hl (by rw [htok]; simp)
-    simp only [cut, List.append_assoc] at this ⊢
-    rw [this]
-    have e1 : (data ++ (splitTok ++ (hexEnc tag ++ if new = true then newSuffix else []))).take data.length = data := by simp
-    have e2 : (data ++ (splitTok ++ (hexEnc tag ++ if new = true then newSuffix else []))).drop (data.length + splitTok.length) =
-        hexEnc tag ++ if new = true then newSuffix else [] := by
-      rw [← List.append_assoc, ← List.length_append]
-      exact List.drop_left
-    simp only [Option.map_some, e1, e2]
-  have hne : (data ++ splitTok ++ hexEnc tag ++ (if new then newSuffix else [])).isEmpty = false := by
-    rw [htok]; simp
+  have e : data ++ splitTok ++ hexEnc tag ++ (if new then newSuffix else []) = data ++ splitTok ++ tagPart tag new := by
+    simp [tagPart, List.append_assoc]
+  have hp := tagPart_parse tag new
+  rw [e]
   unfold parseLine
-  rw [hne, hcut]
+  rw [rendered_nonempty, cut_last_rendered]
+  simp only [Bool.false_eq_true, if_false, hp.1]
   cases new with
-  | false =>
-    simp [hexEnc_not_new, hexDec_hexEnc]
-  | true =>
-    have h10 : newSuffix.length = 10 := by decide
-    simp [hasSuffix_append, hexDec_hexEnc, h10]
+  | false => simp only [Bool.false_eq_true, if_false] at hp ⊢; rw [hp.2]
+  | true => simp only [if_true] at hp ⊢; rw [hp.2]
+
+/-- **Render/parse for the CEF format.** The same for the CEF parser, which additionally applies
+`strings.TrimSpace` to the part after the split token; the tag is never empty (it is a hash). -/
+theorem render_parse_cef (data tag : Bytes) (new : Bool) (hne : tag ≠ []) :
+    parseLine .last true (data ++ splitTok ++ hexEnc tag ++ (if new then newSuffix else [])) =
+      .entry ⟨data, tag, new, isEndData data⟩ := by
+  have e : data ++ splitTok ++ hexEnc tag ++ (if new then newSuffix else []) = data ++ splitTok ++ tagPart tag new := by
+    simp [tagPart, List.append_assoc]
+  have hp := tagPart_parse tag new
+  rw [e]
+  unfold parseLine
+  rw [rendered_nonempty, cut_last_rendered]
+  simp only [Bool.false_eq_true, if_false, if_true, trimSpace_tagPart tag new hne, hp.1]
+  cases new with
+  | false => simp only [Bool.false_eq_true, if_false] at hp ⊢; rw [hp.2]
+  | true => simp only [if_true] at hp ⊢; rw [hp.2]
 
 /-- the entry-level view of a line-level history -/
 def toPItem (it : LItem) : PItem := ⟨it.formatted, isEndData it.formatted, it.resetAfter⟩
@@ -112,6 +106,38 @@ theorem honest_plaintext_verifies (c : CryptoOps) (key : Bytes) (items : List LI
       intro st
       simp only [produceLines, appendIntegrity, List.map_cons, produce, toPItem]
       rw [render_parse_plain]
+      congr 1
+      exact ih _
+  have hent : ∀ es : List Entry, entriesOf (es.map Line.entry) = es := by
+    intro es; induction es with
+    | nil => rfl
+    | cons e r ih => simp [entriesOf, ih]
+  apply honest_verifies c key (items.map toPItem)
+  · intro it hit
+    obtain ⟨l, hl, rfl⟩ := List.mem_map.mp hit
+    exact hres l hl
+  · intro l hl
+    rw [hmap] at hl
+    obtain ⟨e, _, rfl⟩ := List.mem_map.mp hl
+    simp
+  · rw [hmap, hent]
+
+/-- **Honest CEF logs verify, whatever the messages and fields contain** (for a hash with non-empty
+output – true of SHA-256). -/
+theorem honest_cef_verifies (c : CryptoOps) (key : Bytes) (items : List LItem)
+    (hsha : ∀ m, c.sha256 m ≠ [])
+    (hres : ∀ it ∈ items, it.resetAfter = true → isEndData it.formatted = true) :
+    verify c key ((produceLines c key (Calc.new c key) items).map (parseLine .last true)) = .ok := by
+  have hmap : ∀ (its : List LItem) (st : Calc),
+      (produceLines c key st its).map (parseLine .last true) =
+        (produce c key st (its.map toPItem)).map Line.entry := by
+    intro its
+    induction its with
+    | nil => intro st; rfl
+    | cons it r ih =>
+      intro st
+      simp only [produceLines, appendIntegrity, List.map_cons, produce, toPItem]
+      rw [render_parse_cef _ _ _ (by simp only [Calc.step]; exact hsha _)]
       congr 1
       exact ih _
   have hent : ∀ es : List Entry, entriesOf (es.map Line.entry) = es := by
